@@ -23,8 +23,12 @@ public:
     }
     ~SimTcp() override
     {
-        // keep ~QAbstractSocket from calling abort() on a socket without an engine
+        // ~QAbstractSocket calls abort() on a socket that is not unconnected, and abort() emits disconnected(): whoever
+        // is connected to the transport (the Socket relays it as its own disconnected()) hears of it while the owner is
+        // being destroyed.  Done here, since abort() cannot run on a socket without an engine.
+        const bool was = state() == QAbstractSocket::ConnectedState || state() == QAbstractSocket::ClosingState;
         setSocketState(QAbstractSocket::UnconnectedState);
+        if (was) Q_EMIT disconnected();
     }
 
     void put(const QByteArray &b) { inbox.append(b); }
